@@ -81,6 +81,10 @@ func (m *C03) OnStep(_ explore.Ghost, st *explore.Step) []V {
 	sellerDenom := map[string]map[string]bool{}
 	duePay := map[string]map[string]*big.Rat{} // seller -> ask denom -> exact payment owed
 	dueFills := map[string]map[string]int64{}
+	for _, d := range feeParamsAsSet(st) {
+		// a seller, who signs nothing at a fill, is paid according to the rates governance set
+		out = append(out, V{Kind: "C03/fee-rates-differ-from-the-governance-message", Detail: d})
+	}
 	// the exception for fills is about the order AS THE SELLER SIGNED IT: what Sell / UpdateSellOrders
 	// store must be what the seller's message says
 	if st.Act.Kind == explore.ActMsg {
